@@ -1,5 +1,5 @@
 (* Second-generation Session model (coq/theories/Session2): the output queue [_out_packet] and a
-   transport that may refuse writes or fail hard are part of the model ([no_fail ops]: no hard failure in the history); a packet is first HANDED to the connection
+   transport that may refuse writes or fail hard are part of the model; a packet is first HANDED to the connection
    ([Handed]) and WRITTEN ([Tx]) when the transport accepts it; reconnect() drops whatever is queued.
    The statements are in Session2/Statements.v, the checkers in Session2/Check.v; [conforming] lets an
    acknowledgement arrive only for a packet that was written.  To be distributed over Props/C01.v,
@@ -13,16 +13,16 @@ From PahoV Require Import Base.Prelude Session2.Model Session2.Check Session2.St
    unwritten PUBLISH; on an established connection every owned message has been handed to the connection
    (and written unless the transport refuses writes) or the window is full. *)
 Theorem S2_C01_owned_handed_written_completed_once : forall c ops,
-  cfg_ok c = true -> conforming c ops = true -> no_fail ops = true -> c01_ok c (optrace c ops) = true.
-Proof. exact c01_calm_proved. Qed.
+  cfg_ok c = true -> conforming c ops = true -> c01_ok c (optrace c ops) = true.
+Proof. exact c01_proved. Qed.
 Print Assumptions S2_C01_owned_handed_written_completed_once.
 
 (* C02 - persistent session: no PUBLISH is written for a message past PUBREC; PUBREL handed in the operation
    of every accepting CONNACK (written there unless blocked); a PUBLISH written before carries DUP = 1, a
    message never handed to a connection before carries DUP = 0, QoS 0 never DUP. *)
 Theorem S2_C02_no_republish_pubrel_dup : forall c ops,
-  cfg_ok c = true -> conforming c ops = true -> no_fail ops = true -> c02_ok c (optrace c ops) = true.
-Proof. exact c02_calm_proved. Qed.
+  cfg_ok c = true -> conforming c ops = true -> c02_ok c (optrace c ops) = true.
+Proof. exact c02_proved. Qed.
 Print Assumptions S2_C02_no_republish_pubrel_dup.
 
 (* C03 - arbitrary histories: callbacks and the replies handed to the connection are those of the abstract receiver *)
@@ -32,19 +32,19 @@ Print Assumptions S2_C03_refines_receiver.
 
 (* C12 - the window bounds the packets written on the current connection ... *)
 Theorem S2_C12_window_written : forall c ops,
-  cfg_ok c = true -> conforming c ops = true -> no_fail ops = true -> c12_window_ok c (optrace c ops) = true.
-Proof. exact c12_window_calm_proved. Qed.
+  cfg_ok c = true -> conforming c ops = true -> c12_window_ok c (optrace c ops) = true.
+Proof. exact c12_window_proved. Qed.
 Print Assumptions S2_C12_window_written.
 
 (* ... and, stronger, the packets handed to it *)
 Theorem S2_C12_window_handed : forall c ops,
-  cfg_ok c = true -> conforming c ops = true -> no_fail ops = true -> c12_handed_ok c (optrace c ops) = true.
-Proof. exact c12_handed_calm_proved. Qed.
+  cfg_ok c = true -> conforming c ops = true -> c12_handed_ok c (optrace c ops) = true.
+Proof. exact c12_handed_proved. Qed.
 Print Assumptions S2_C12_window_handed.
 
 Theorem S2_C12_queue_bound : forall c ops,
-  cfg_ok c = true -> conforming c ops = true -> no_fail ops = true -> c12_queue_ok c (optrace c ops) = true.
-Proof. exact c12_queue_calm_proved. Qed.
+  cfg_ok c = true -> conforming c ops = true -> c12_queue_ok c (optrace c ops) = true.
+Proof. exact c12_queue_proved. Qed.
 Print Assumptions S2_C12_queue_bound.
 
 Theorem S2_C12_no_idle_slot : forall c ops, cfg_ok c = true -> conforming c ops = true ->
@@ -57,13 +57,13 @@ Print Assumptions S2_C12_no_idle_slot.
 
 (* C13 - publish() order of the hand-overs and of the writes, per connection *)
 Theorem S2_C13_order_handed : forall c ops,
-  cfg_ok c = true -> conforming c ops = true -> no_fail ops = true -> c13_handed_ok c (optrace c ops) = true.
-Proof. exact c13_handed_calm_proved. Qed.
+  cfg_ok c = true -> conforming c ops = true -> c13_handed_ok c (optrace c ops) = true.
+Proof. exact c13_handed_proved. Qed.
 Print Assumptions S2_C13_order_handed.
 
 Theorem S2_C13_order_written : forall c ops,
-  cfg_ok c = true -> conforming c ops = true -> no_fail ops = true -> c13_tx_ok c (optrace c ops) = true.
-Proof. exact c13_tx_calm_proved. Qed.
+  cfg_ok c = true -> conforming c ops = true -> c13_tx_ok c (optrace c ops) = true.
+Proof. exact c13_tx_proved. Qed.
 Print Assumptions S2_C13_order_written.
 
 (* on any trace (model or implementation) that obeys the queue discipline, order of the hand-overs gives order of the writes *)
@@ -107,7 +107,7 @@ Example S2_nonvacuous_history :
   out (fst (run ex_cfg ex_ops)) = [].
 Proof. vm_compute. repeat split; reflexivity. Qed.
 
-(* a conforming history with HARD write failures (not covered by [no_fail]): the peer vanishes while a QoS 1 message
+(* a conforming history with HARD write failures: the peer vanishes while a QoS 1 message
    is in flight; publish(qos=2) hands its PUBLISH over, the write fails, the connection is torn down inside
    publish(), which takes the message out of the window again and reports MQTT_ERR_NO_CONN (4); after the
    reconnect the CONNACK retransmission loop stops at its first failed write.  All trace checkers accept the run,
